@@ -19,8 +19,8 @@ import json
 import os
 import re
 
-THEOREMS = ["IstioModel.C14.MonitorTheorems"]
-KERNEL_STREAMS = ()
+THEOREMS = ["IstioModel.C14.MonitorTheorems", "IstioModel.C14.KernelTheorems"]
+KERNEL_STREAMS = ("domains", "clusters", "answer")
 
 
 # Findings of this check that are NOT fixed in /repo (see notes/C14.md, section Findings). The coordinator
